@@ -1,6 +1,7 @@
 package colmap
 
 import (
+	"fmt"
 	"io"
 
 	"github.com/EliCDavis/polyform/modeling"
@@ -39,8 +40,21 @@ func PointDataToPointCloud(points []colmap.Point3D) modeling.Mesh {
 	)
 }
 
+// decode runs one of the binary decoders. On a truncated file the decoders
+// can take a record count from a partially filled buffer and panic while
+// allocating it ("makeslice: len out of range"); that is a malformed file
+// and is reported as an error like any other short read.
+func decode[T any](f func() (T, error)) (out T, err error) {
+	defer func() {
+		if r := recover(); r != nil {
+			err = fmt.Errorf("colmap: truncated or malformed data: %v: %w", r, io.ErrUnexpectedEOF)
+		}
+	}()
+	return f()
+}
+
 func ReadSparsePointData(in io.Reader) (modeling.Mesh, error) {
-	points, err := colmap.ReadPoints3DBinary(in)
+	points, err := decode(func() ([]colmap.Point3D, error) { return colmap.ReadPoints3DBinary(in) })
 	if err != nil {
 		return modeling.EmptyPointcloud(), err
 	}
@@ -49,7 +63,7 @@ func ReadSparsePointData(in io.Reader) (modeling.Mesh, error) {
 
 // Loads the feature match point data into a Pointcloud mesh
 func LoadSparsePointData(filename string) (modeling.Mesh, error) {
-	points, err := colmap.LoadPoints3DBinary(filename)
+	points, err := decode(func() ([]colmap.Point3D, error) { return colmap.LoadPoints3DBinary(filename) })
 	if err != nil {
 		return modeling.EmptyPointcloud(), err
 	}
